@@ -11,14 +11,23 @@ def create_build_finer_grid_fun(epsilon: float, maturity: float):
     ):
         return jump_times, fines_states_values, coarse_states_values
 
+    def _with_last_value_repeated(values):
+        last_value = (
+            values[..., -1:]
+            if values.shape[-1]
+            else np.zeros(shape=values.shape[:-1] + (1,))
+        )
+        return np.concatenate((values, last_value), axis=-1)
+
     def _build_finer_grid(self, jump_times, fines_states_values, coarse_states_values):
-        dts = np.concatenate(([jump_times[0]], np.diff(jump_times)))
+        # the path ends at the maturity (the caller appends it with the last values): the step up to it is capped too
+        dts = np.diff(np.append(jump_times, maturity), prepend=0)
         if not any(dts > epsilon):
             return jump_times, fines_states_values, coarse_states_values
         else:
             positions = np.nonzero(dts > epsilon)[0]
-            aug_fine_js = fines_states_values
-            aug_coarse_js = coarse_states_values
+            aug_fine_js = _with_last_value_repeated(fines_states_values)
+            aug_coarse_js = _with_last_value_repeated(coarse_states_values)
             aug_dts = dts
             while positions.size > 0:
                 aug_dts[positions] -= epsilon
@@ -38,6 +47,7 @@ def create_build_finer_grid_fun(epsilon: float, maturity: float):
                 positions = np.nonzero(aug_dts > epsilon)[0]
             aug_jump_times = np.cumsum(aug_dts)
 
-            return aug_jump_times, aug_fine_js, aug_coarse_js
+            # without the maturity itself
+            return aug_jump_times[:-1], aug_fine_js[..., :-1], aug_coarse_js[..., :-1]
 
     return _build_finer_grid_default if epsilon >= maturity else _build_finer_grid
